@@ -381,10 +381,14 @@ theorem clean_dotSet (T : Tables) (n : Str) {v : DotVal} (hv : GoodStr v.tostr) 
     | bool b => simp at hs; subst hs; exact hv
   · split
     · exact h
-    · split
+    · next L _ =>
+      split
       · exact h
       · split
-        · exact clean_setAttribute _ _ (fun s hs => by cases hs; exact goodStr_boolString v) h
+        · have h1 := clean_setAttribute T L.attr (v := some v.boolString) (fun s hs => by cases hs; exact goodStr_boolString v) h
+          split
+          · next e' heq => rw [heq] at h1; exact clean_of_eq (getAttribute_cls _ _ _ _) h1
+          · next r hne => exact h1
         · split
           · split
             · exact clean_setAttribute _ _ (fun s hs => by cases hs; exact goodStr_nil) h
